@@ -91,6 +91,10 @@ LAYOUTS_1D = ('c', 'strided', 'col', 'row', 'colstrided', 'list', 'f32', 'int', 
 LAYOUTS_2D = ('c', 'f', 'strided', 'list', 'f32', 'int', 'mn1', 'ro')
 
 
+class SubArray(np.ndarray):
+    """a plain ndarray subclass: np.asarray returns a base-class VIEW of it (same memory, different object)"""
+
+
 def lay1(vals, layout):
     """1-D values in the given memory layout.  Returns the object handed to the library."""
     v = np.array(vals, dtype=float)
@@ -127,6 +131,14 @@ def lay1(vals, layout):
         big = np.zeros(2 * n, dtype=bool)
         big[::2] = v > 0
         return big[::2]
+    if layout == 'boolcol':
+        return (v > 0).reshape(n, 1)
+    if layout == 'subclass':
+        return v.copy().view(SubArray)
+    if layout == 'subcol':
+        return v.copy().reshape(n, 1).view(SubArray)
+    if layout == 'masked':
+        return np.ma.array(v.copy(), mask=np.zeros(n, dtype=bool))
     raise ValueError(layout)
 
 
@@ -154,6 +166,10 @@ def lay2(vals, layout):
         return v.copy().reshape(v.shape + (1,))
     if layout == 'bool':
         return v > 0
+    if layout == 'subclass':
+        return v.copy().view(SubArray)
+    if layout == 'masked':
+        return np.ma.array(v.copy(), mask=np.zeros(v.shape, dtype=bool))
     raise ValueError(layout)
 
 
@@ -342,6 +358,7 @@ def build_case(rng, two_d, name, mode):
         rng.shuffle(cands)
         for p in cands[:rng.choice([0, 1, 1, 2, 3])]:
             c['extra'][p] = rng.choice(BRANCH_VALUES[p])
+    c['solver'] = rng.choice([None, None, 1, 3, 4])
     if not two_d and name != 'interp_pts' and mode in ('layout', 'branch', 'param') and rng.random() < 0.25:
         c['functional'] = True     # pybaselines.<module>.<method>(data, x_data=...)
     if mode == 'raise':
@@ -424,7 +441,7 @@ def materialise(c):
             vals = 1 + np.round(2 * vals)
         if vals.ndim == 1:
             return lay1(vals, layout)
-        return lay2(vals, layout if layout in LAYOUTS_2D + ('bool',) else 'c')
+        return lay2(vals, layout if layout in LAYOUTS_2D + ('bool', 'subclass', 'masked') else 'c')
 
     for p, how in c['args'].items():
         if p == 'weights':
@@ -465,21 +482,21 @@ def materialise(c):
                 if inner in ('aspls', 'pspline_aspls') and how == 'nested':
                     d['alpha'] = arr(0.5 + 0.5 * rs.random_sample(shape), 'c')
                 if _inner_accepts(itd, inner, 'pad_kwargs') and how == 'nested':
-                    d['pad_kwargs'] = nested_pad_kwargs(c.get('optsel', 0) // 3, itd, n, m)
+                    d['pad_kwargs'] = nested_pad_kwargs(c.get('padsel', c.get('optsel', 0) // 3), itd, n, m)
                 if _inner_accepts(itd, inner, 'window_kwargs') and how == 'nested':
-                    d['window_kwargs'] = nested_window_kwargs(c.get('optsel', 0) // 5, n)
+                    d['window_kwargs'] = nested_window_kwargs(c.get('winsel', c.get('optsel', 0) // 5), n)
                 if _inner_accepts(itd, inner, 'poly_order') and name not in ('adaptive_minmax', 'optimize_extended_range'):
                     d['poly_order'] = np.array([2, 2]) if itd else np.array(2)
                 if _inner_accepts(itd, inner, 'lam') and name != 'optimize_extended_range' and inner != 'fabc':
                     d['lam'] = np.array([50.0, 50.0]) if itd else np.array([500.0])
             kw[p] = d
         elif p == 'pad_kwargs':
-            d = {'mode': 'reflect'} if how == 'plain' else nested_pad_kwargs(c.get('optsel', 0), two_d, n, m)
+            d = {'mode': 'reflect'} if how == 'plain' else nested_pad_kwargs(c.get('padsel', c.get('optsel', 0)), two_d, n, m)
             kw[p] = d
         elif p == 'window_kwargs':
             d = {'min_half_window': 2, 'max_hits': 2}
             if how != 'plain':
-                d = nested_window_kwargs(c.get('optsel', 0) // 7, n)
+                d = nested_window_kwargs(c.get('winsel', c.get('optsel', 0) // 7), n)
             kw[p] = d
     if name == 'interp_pts':
         kw = {k: v for k, v in kw.items() if v is not None}
@@ -558,6 +575,8 @@ def call(c, objs=None):
                 res = func(data, **kw, **ctor)
             else:
                 fitter = (Baseline2D if c['two_d'] else Baseline)(**ctor)
+                if c.get('solver'):
+                    fitter.banded_solver = c['solver']     # public configuration: which banded solver is used
                 res = getattr(fitter, c['method'])(data, **kw)
                 if c.get('twice'):
                     res = getattr(fitter, c['method'])(data, **kw)
@@ -609,7 +628,8 @@ def check_case(ctx, c, kind):
     outcome, msg, problems = call(c)
     argkey = ','.join(sorted(p.split('[')[0] for p, _ in problems))
     dim = '2d' if c['two_d'] else '1d'
-    ctx.case(('oracle', repr(sorted(c.items(), key=str))), nontrivial=bool(c['args']) or c['data'] != 'c' or c['x'] != 'sorted',
+    ctx.case(('oracle', repr(sorted(c.items(), key=str))), nontrivial=bool(c['args']) or c['data'] != 'c' or c['x'] != 'sorted' or bool(c.get('extra'))
+             or bool(c.get('solver')) or c.get('ykind', 'peaks') != 'peaks' or bool(c.get('functional')),
              kind=f'{kind}:{"raises" if outcome != "ok" else "returns"}')
     if problems:
         ctx.fail(f'mutated:{dim}:{c["method"]}:{argkey}',
@@ -728,6 +748,7 @@ def correspondence(ctx):
     wcases, ycases, kcases = set(), set(), set()
     nontriv = 0
     try:
+        setup_grid(ctx, wcases)
         plan = []
         for two_d, names in ((False, WEIGHT_METHODS_1D), (True, WEIGHT_METHODS_2D)):
             for name in names:
@@ -901,6 +922,173 @@ def seq_param_cases(ctx):
                          {'kind': 'seqparam', 'two_d': two_d, 'method': name, 'spec': {a: list(b) for a, b in spec.items()}})
 
 
+# ------------------------------------------------------------------------------------------------
+# fixed, enumerated grids (run first; random draws only on top)
+W_FORMS_1D = ('c', 'strided', 'neg', 'col', 'row', 'colstrided', 'subclass', 'subcol', 'masked', 'list', 'int', 'f32',
+              'bool', 'boolstrided', 'boolcol', 'ro')
+W_FORMS_2D = ('c', 'f', 'strided', 'mn1', 'subclass', 'masked', 'list', 'int', 'f32', 'bool', 'ro')
+# options that make a body write into / re-use its weight array
+W_WRITE_OPTS = ({}, {'mask_initial_peaks': True}, {'weights_as_mask': True}, {'use_original': True})
+
+
+def weight_grid_cases():
+    """every method that accepts weights x every weight form (all no-copy forms: contiguous, strided, negative stride,
+    (N,1), (1,N), non-contiguous column, ndarray subclass, masked array, bool; and the copying ones) x x sorted /
+    absent / unsorted, on data with peaks, plus the options that make the body write into its weights"""
+    cases = []
+    for two_d in (False, True):
+        forms = W_FORMS_2D if two_d else W_FORMS_1D
+        for mi, name in enumerate(M.method_names(two_d)):
+            params = sig_params(name, two_d)
+            if 'weights' not in params:
+                continue
+            for fi, form in enumerate(forms):
+                if form in ('bool', 'boolstrided', 'boolcol') and name not in CLASSIFICATION and fi % 3:
+                    continue
+                for xi, xmode in enumerate(('sorted', 'none', 'unsorted')):
+                    if xmode == 'unsorted' and fi % 4:
+                        continue      # the sorted copy hides the caller's array: sampled
+                    for opts in W_WRITE_OPTS:
+                        if any(k not in params for k in opts):
+                            continue
+                        c = {'two_d': two_d, 'method': name, 'seed': 1000 * mi + 7 * fi + xi, 'mode': 'wgrid',
+                             'n': 40 if not two_d else 12, 'm': 11, 'data': 'c', 'x': xmode, 'xlay': 'c',
+                             'args': {'weights': form}, 'raise_at': None, 'extra': dict(opts), 'ykind': 'peaks', 'optsel': 0}
+                        if name in ('aspls', 'pspline_aspls'):
+                            c['args']['alpha'] = form if form in ('c', 'strided', 'neg', 'col', 'row', 'subclass', 'f', 'mn1') else 'c'
+                        cases.append(c)
+    return cases
+
+
+def param_grid_cases():
+    """every method x every one-at-a-time option value of the catalogue (non-default features switched on) x every
+    banded-solver setting, on contiguous float64 data (the form the body receives as a view of the caller's array)
+    with sorted x, and without x for the default solver"""
+    cases = []
+    for two_d in (False, True):
+        for mi, name in enumerate(M.method_names(two_d)):
+            variants = [{}] + [v for v in M.param_variants(name, two_d)
+                               if not (two_d and list(v)[0] == 'half_window' and v['half_window'] > 15)
+                               and not isinstance(list(v.values())[0], tuple)]
+            for vi, var in enumerate(variants):
+                for solver, xmode in ((None, 'sorted'), (3, 'sorted'), (4, 'sorted'), (1, 'sorted'), (None, 'none')):
+                    if (two_d and solver in (1, 3)) or (solver == 1 and vi):
+                        continue
+                    c = {'two_d': two_d, 'method': name, 'seed': 5000 + 100 * mi + vi, 'mode': 'pgrid',
+                         'n': 40 if not two_d else 12, 'm': 11, 'data': 'c', 'x': xmode, 'xlay': 'c', 'args': {},
+                         'raise_at': None, 'extra': dict(var), 'ykind': 'peaks', 'optsel': 0, 'solver': solver}
+                    if name == 'interp_pts':
+                        c['args'] = {'baseline_points': 'c'}
+                    cases.append(c)
+    return cases
+
+
+def branch_grid_cases():
+    """every method x every data kind (peak-free, polynomial, constant, zero, blank, step, spikes, all-peaks, negative) with
+    default options; and, for the methods with data-dependent early returns, every extreme option value one at a time on
+    polynomial / blank / peak data; contiguous float64 data, sorted x"""
+    cases = []
+    kinds = [k for k in dict.fromkeys(Y_KINDS) if k != 'peaks']
+    for two_d in (False, True):
+        for mi, name in enumerate(M.method_names(two_d)):
+            params = sig_params(name, two_d)
+            base = {'two_d': two_d, 'method': name, 'mode': 'bgrid', 'n': 40 if not two_d else 12, 'm': 11, 'data': 'c',
+                    'x': 'sorted', 'xlay': 'c', 'raise_at': None, 'optsel': 0, 'solver': None}
+            args = {'baseline_points': 'c'} if name == 'interp_pts' else {}
+            for ki, kind in enumerate(kinds):
+                cases.append(dict(base, seed=9000 + 50 * mi + ki, args=dict(args), extra={}, ykind=kind))
+            if name in BRANCHY_METHODS and not two_d:
+                for p in ('num_std', 'threshold', 'min_length', 'max_iter', 'max_iter_2', 'tol', 'interp_half_window',
+                          'smooth_half_window', 'sections', 'min_fwhm', 'mask_initial_peaks', 'use_original', 'weights_as_mask'):
+                    if p not in params:
+                        continue
+                    for vi, v in enumerate(BRANCH_VALUES[p]):
+                        for ki, kind in enumerate(('quad', 'blank', 'peaks')):
+                            cases.append(dict(base, seed=9500 + 50 * mi + 3 * vi + ki, args=dict(args), extra={p: v}, ykind=kind))
+    return cases
+
+
+def nested_grid_cases():
+    """every method with a dict-valued keyword x every array-valued variant of the documented nested options (in-range,
+    boundary, out-of-range; no-copy dtypes), directly and nested inside method_kwargs for the optimizers"""
+    cases = []
+    for two_d in (False, True):
+        for mi, name in enumerate(M.method_names(two_d)):
+            params = sig_params(name, two_d)
+            base = {'two_d': two_d, 'method': name, 'mode': 'ngrid', 'n': 40 if not two_d else 12, 'm': 11, 'data': 'c',
+                    'x': 'sorted', 'xlay': 'c', 'raise_at': None, 'optsel': 0, 'solver': None, 'ykind': 'peaks', 'extra': {}}
+            if 'pad_kwargs' in params:
+                for k in range(8 if two_d else 12):
+                    cases.append(dict(base, seed=12000 + 20 * mi + k, args={'pad_kwargs': 'arrays'}, padsel=k))
+            if 'window_kwargs' in params:
+                for k in range(5):
+                    cases.append(dict(base, seed=12500 + 20 * mi + k, args={'window_kwargs': 'arrays'}, winsel=k))
+            if 'method_kwargs' in params:
+                inners = [None] + (INNER_ALT_2D if two_d else INNER_ALT_1D).get(name, [])
+                for ii, inner in enumerate(inners):
+                    for k in range(0, 12, 1 if ii < 3 else 4):
+                        extra = {} if inner is None else {'method': inner}
+                        cases.append(dict(base, seed=13000 + 40 * mi + 13 * ii + k, args={'method_kwargs': 'nested'},
+                                          padsel=k, winsel=k % 5, extra=extra))
+    return cases
+
+
+def setup_grid(ctx, wcases):
+    """the setup boundary itself, enumerated: every _setup_* entry (1-D and 2-D) x copy_weights x x sorted/unsorted x
+    every weight form, called directly on a fitter object; observed np.shares_memory against the caller's weights"""
+    from pybaselines import Baseline, Baseline2D
+    rs = np.random.RandomState(3)
+    for two_d in (False, True):
+        if two_d:
+            x, z, y = M.make_z2d(rs, 9, 10)
+            shape = (9, 10)
+        else:
+            x = M.make_x(rs, 24)
+            y = M.make_y(rs, x)
+            shape = (24,)
+        for unsorted in (False, True):
+            if two_d:
+                px = rs.permutation(9) if unsorted else np.arange(9)
+                ctor = {'x_data': x[px], 'z_data': z}
+            else:
+                px = rs.permutation(24) if unsorted else np.arange(24)
+                ctor = {'x_data': x[px]}
+            for kind, sname in SETUP_KINDS:
+                for cw in (False, True):
+                    if kind == 'Classification' and cw:
+                        continue
+                    for form in ((None,) + (W_FORMS_2D if two_d else W_FORMS_1D)):
+                        wv = 0.2 + 0.8 * rs.random_sample(shape)
+                        if form is None:
+                            w = None
+                        elif form.startswith('bool'):
+                            w = (lay2 if two_d else lay1)(np.where(wv > 0.3, 1.0, -1.0), form if not two_d or form == 'bool' else 'bool')
+                        elif form == 'int':
+                            w = (lay2 if two_d else lay1)(1 + np.round(2 * wv), 'int')
+                        else:
+                            w = (lay2 if two_d else lay1)(wv, form)
+                        fitter = (Baseline2D if two_d else Baseline)(**ctor)
+                        yy = np.array(y, dtype=float)
+                        kwargs = {'weights': w}
+                        if kind != 'Classification':
+                            kwargs['copy_weights'] = cw
+                        if kind == 'Polynomial':
+                            kwargs.update(calc_vander=True, calc_pinv=True)
+                        try:
+                            with warnings.catch_warnings():
+                                warnings.simplefilter('ignore')
+                                res = getattr(fitter, sname)(yy, **kwargs)
+                        except Exception:   # noqa
+                            ctx.case(('setup-grid', two_d, kind, cw, unsorted, form), nontrivial=False, kind='alias-grid:raises')
+                            continue
+                        rv = bool(two_d and kind == 'Whittaker' and len(res) > 2 and not getattr(res[2], '_using_svd', True))
+                        fl = inp_flags(w, two_d)
+                        obs = shares(w, res[1])
+                        wcases.add((two_d, rv, kind, cw, fitter._sort_order is None, fl, obs))
+                        ctx.case(('setup-grid', two_d, kind, cw, unsorted, form), nontrivial=w is not None,
+                                 kind=f'alias-grid:{kind}')
+
+
 def utils_call_list():
     """(description, function name, positional args, keyword args) for the public functions of pybaselines.utils (and the
     padding helper behind them), every array-like argument given as an ndarray in the dtype the function converts to (no copy)
@@ -994,6 +1182,16 @@ def search(ctx, budget):
     modes = ['base', 'layout', 'layout', 'raise', 'param', 'branch', 'branch']
     reps = budget
     n0 = len(ctx.violations) + len(ctx.known_hit)
+    # fixed, enumerated grids first
+    for kind, cases in (('oracle:weight-grid', weight_grid_cases()), ('oracle:option-solver-grid', param_grid_cases()),
+                        ('oracle:branch-grid', branch_grid_cases()), ('oracle:nested-option-grid', nested_grid_cases())):
+        for c in cases:
+            try:
+                check_case(ctx, c, kind)
+            except Exception as exc:   # noqa
+                ctx.note(f'oracle harness error on {c["method"]}: {type(exc).__name__}: {exc}')
+    seq_param_cases(ctx)
+    utils_cases(ctx)
     for two_d in (False, True):
         for name in M.method_names(two_d):
             for mode in modes:
@@ -1020,8 +1218,6 @@ def search(ctx, budget):
                 check_case(ctx, c, 'oracle:reuse')
             except Exception as exc:   # noqa
                 ctx.note(f'oracle harness error on {name}: {type(exc).__name__}: {exc}')
-    seq_param_cases(ctx)
-    utils_cases(ctx)
     return len(ctx.violations) + len(ctx.known_hit) - n0
 
 
@@ -1074,7 +1270,7 @@ def run(ctx):
     except Exception as exc:   # noqa
         import traceback
         ctx.broke('correspondence:harness', traceback.format_exc()[-1200:])
-    budget = 3 if (ok and not ctx.broken) else 6
+    budget = 3 if (ok and not ctx.broken) else 4
     if ctx.tier == 'thorough':
         budget = 14
     found = search(ctx, budget)
